@@ -356,4 +356,19 @@ def c15_sweep(seed=0, n=300):
     return {"violates": False, "cases": cases}
 
 
-CALLS = {"c15_rewrite_history": c15_rewrite_history, "c15_extend": c15_extend, "c15_timestamps": c15_timestamps, "c15_grouped_view": c15_grouped_view, "c15_colliding": c15_colliding, "c15_grouped_replace": c15_grouped_replace, "c15_grouped_collision": c15_grouped_collision, "c15_ts_collision": c15_ts_collision, "c15_ts_unset": c15_ts_unset, "c15_grouped": c15_grouped, "c15_rewrite": c15_rewrite, "c15_sweep": c15_sweep}
+
+def c15_copy(kind="grouped", x=3):
+    from flow.record import GroupedRecord, RecordDescriptor
+
+    A = RecordDescriptor("c15/ca", [("varint", "n"), ("string", "s")])
+    B = RecordDescriptor("c15/cb", [("string", "s"), ("string", "t")])
+    T = RecordDescriptor("c15/ct", [("string", "t"), ("varint", "n"), ("string", "zz")])
+    a = A(n=x, s="from a", _source="src-a", _classification="cls-a")
+    b = B(s="from b", t="tee")
+    src = a if kind == "plain" else GroupedRecord("c15/cg", [a, b]) if kind == "grouped" else GroupedRecord("c15/cg", [GroupedRecord("c15/ci", [a]), b])
+    r = T.init_from_record(src)
+    want = {"t": None if kind == "plain" else "tee", "n": x, "zz": None, "_source": "src-a", "_classification": "cls-a"}
+    got = {k: getattr(r, k) for k in want}
+    return {"violates": got != want, "detail": f"init_from_record({kind} source): the copy holds {got!r}, expected {want!r}"}
+
+CALLS = {"c15_copy": c15_copy, "c15_rewrite_history": c15_rewrite_history, "c15_extend": c15_extend, "c15_timestamps": c15_timestamps, "c15_grouped_view": c15_grouped_view, "c15_colliding": c15_colliding, "c15_grouped_replace": c15_grouped_replace, "c15_grouped_collision": c15_grouped_collision, "c15_ts_collision": c15_ts_collision, "c15_ts_unset": c15_ts_unset, "c15_grouped": c15_grouped, "c15_rewrite": c15_rewrite, "c15_sweep": c15_sweep}
